@@ -124,6 +124,8 @@ class RaggedHistory(Engine):
             return {'op': 'delete'}
         if k == 'copycheck':
             return {'op': 'copycheck'}
+        if k == 'metamode':
+            return {'op': 'metamode', 'meta': rng.choice(['r', 'r+']), 'handle': rng.choice(['r', 'r', 'r+'])}
         if k == 'recreate':
             c = self.gen_create(rng)
             c['op'] = 'recreate'
@@ -671,6 +673,14 @@ class _RState:
         if out == 'ok':
             self.mutations_ok += 1
         self.log(op['op'], out)
+        self.after_step(op)
+
+    def do_metamode(self, op):
+        self.h.metadata.accessmode = op['meta']
+        self.h.accessmode = op['handle']        # the handle's assignment decides for everything
+        self.mode = op['handle']
+        self.probe('metadata_mode_set_directly')
+        self.log('metamode', f"{op['meta']}>{op['handle']}")
         self.after_step(op)
 
     def do_copycheck(self, op):
